@@ -1,4 +1,5 @@
 import NriModel.Lemmas.StubSession
+import NriModel.Lemmas.StubSessionTrace
 /-!
 Property C16 — starting, stopping and restarting the stub terminates and leaves it usable.
 
@@ -234,6 +235,21 @@ theorem C16_live_session_stable {s s' : State} {e : Event} (hr : Reach s) (ha : 
 /-- non-vacuity: session 2 is live while the notification of session 1 is still in flight -/
 example : ∃ s, Reach s ∧ 1 ∈ s.inflight ∧ 1 ≠ s.cur ∧ alive s = true :=
   ⟨_, ⟨[.start .ok .ok, .stop, .start .ok .ok], by decide, rfl⟩, by decide, by decide, by decide⟩
+
+/-- The acceptance automaton of the driver (`closure`: deliver pending notifications in any
+    order, let the pending observed operation take effect) derives only reachable states from
+    reachable states: whatever observed history it accepts is explained by a run of the
+    repaired machine, and every theorem above applies to every configuration it holds. -/
+theorem C16_trace_sound (p : Option OpObs) (hp : ∀ pd, p = some pd → pd.inDomain = true)
+    (fuel : Nat) (cs : List Cfg) (h : AllCfg Reach cs) : AllCfg Reach (closure p cs fuel) :=
+  closure_reach p hp fuel cs h
+
+/-- non-vacuity: the automaton's start configuration; and a closure that really moves (the
+    pending Stop applied, then the notification it caused delivered) -/
+example : AllCfg Reach [{ s := init, applied := true }] := by
+  intro c hc; simp at hc; subst hc; exact init_reach
+example : (closure (some .stop)
+    [{ s := (establish (fresh init)), applied := false }] 8).length = 3 := by decide
 
 /-! ### The code before the patch (witnesses; `unfixed` = all three repairs absent) -/
 
